@@ -955,7 +955,7 @@ func c16Variants() []Variant {
 	f := "core/vm/evm.go"
 	return []Variant{
 		{Name: "staticcall-without-revert", File: f, Old: "	ret, err = run(evm, contract, input, true)\n	if err != nil {\n		evm.StateDB.RevertToSnapshot(snapshot)\n		if err != errExecutionReverted {", New: "	ret, err = run(evm, contract, input, true)\n	if err != nil && err != errExecutionReverted {\n		evm.StateDB.RevertToSnapshot(snapshot)\n		if err != errExecutionReverted {", Rule: "C16.F1", Construct: "StaticCall"},
-		{Name: "transfer-before-snapshot", File: f, Old: "	var (\n		to       = AccountRef(addr)\n		snapshot = evm.StateDB.Snapshot()\n	)\n	if !evm.StateDB.Exist(addr) {\n		evm.StateDB.CreateAccount(addr)\n	}\n\n	evm.Transfer(evm.StateDB, caller.Address(), to.Address(), value)\n", New: "	to := AccountRef(addr)\n	evm.Transfer(evm.StateDB, caller.Address(), to.Address(), value)\n	snapshot := evm.StateDB.Snapshot()\n	if !evm.StateDB.Exist(addr) {\n		evm.StateDB.CreateAccount(addr)\n	}\n", Rule: "C16.F1", Construct: "Call#Transfer-after-snapshot"},
+		{Name: "transfer-before-snapshot", File: f, Old: "	var (\n		to       = AccountRef(addr)\n		snapshot = evm.StateDB.Snapshot()\n	)\n	if exist := evm.StateDB.Exist(addr); !exist && value.Sign() == 0 {\n", New: "	to := AccountRef(addr)\n	evm.Transfer(evm.StateDB, caller.Address(), to.Address(), new(big.Int))\n	snapshot := evm.StateDB.Snapshot()\n	if exist := evm.StateDB.Exist(addr); !exist && value.Sign() == 0 {\n", Rule: "C16.F1", Construct: "Call#Transfer-after-snapshot"},
 		{Name: "staticcall-not-readonly", File: f, Old: "	ret, err = run(evm, contract, input, true)", New: "	ret, err = run(evm, contract, input, false)", Rule: "C16.F2", Construct: "StaticCall#readOnly-argument"},
 		{Name: "suicide-without-destroying", File: "core/vm/instructions.go", Old: "	interpreter.evm.StateDB.Suicide(contract.Address())\n", New: "", Rule: "C16.F3", Construct: "opSuicide"},
 		{Name: "keep-gas-on-failure", File: f, Old: "	ret, err = run(evm, contract, input, false) //if contract.Code is empty, return nil, nil\n\n	// When an error was returned by the EVM or when setting the creation code\n	// above we revert to the snapshot and consume any gas remaining. Additionally\n	// when we're in homestead this also counts for code storage gas errors.\n	if err != nil {\n		evm.StateDB.RevertToSnapshot(snapshot)\n		if err != errExecutionReverted {\n			contract.UseGas(contract.Gas)\n		}\n	}", New: "	ret, err = run(evm, contract, input, false) //if contract.Code is empty, return nil, nil\n\n	if err != nil {\n		evm.StateDB.RevertToSnapshot(snapshot)\n	}", Rule: "C16.F1", Construct: "Call#burns-gas"},
